@@ -100,3 +100,14 @@ func (r *RunSpec) Clone() *RunSpec {
 	}
 	return &c
 }
+
+// remoteDoc: the document a remote host serves for iri, fates and faults aside.
+func (w *WorldSpec) remoteDoc(iri string) (J, bool) {
+	for _, d := range w.Remote {
+		if d.ID == iri {
+			m, err := parseJ(d.Doc)
+			return m, err == nil
+		}
+	}
+	return nil, false
+}
